@@ -305,10 +305,11 @@ theorem invx_pyInflate {s o r : MH} (hr : Py.inflate s o = .ok r) : Inv r ∧ Ex
     | error e => simp [ha, bind, Except.bind] at hr
     | ok am =>
       simp only [ha, bind, Except.bind] at hr
-      obtain ⟨hia, hxa⟩ := inv_mkMinHash (show Py.mkMinHash _ _ _ _ _ _ _ = .ok am from ha)
       split at hr
       · cases hr
-      · exact ⟨inv_pySetAbundances hia hxa hr, hxa.pySetAbundances hr⟩
+      · rename_i am' hd
+        obtain ⟨hia, hxa⟩ := invx_pyDownsample hd
+        exact ⟨inv_pySetAbundances hia hxa hr, hxa.pySetAbundances hr⟩
   · cases hr
 
 theorem inv_pyInflate {s o r : MH} (hr : Py.inflate s o = .ok r) : Inv r := (invx_pyInflate hr).1
